@@ -1,6 +1,6 @@
 from flamapy.core.transformations import ModelToText
 
-from flamapy.core.models.ast import Node
+from flamapy.core.models.ast import Node, ASTOperation
 from flamapy.metamodels.fm_metamodel.models import (
     Feature,
     FeatureModel,
@@ -125,7 +125,7 @@ class AFMWriter(ModelToText):
 
         data = node.data
         if node.is_op():
-            data = data.value.upper()
+            data = 'IFF' if data == ASTOperation.EQUIVALENCE else data.value.upper()
 
         if node.left and node.right:
             result = self._read_operand(node.left) + data + self._read_operand(node.right)
